@@ -227,7 +227,20 @@ def buf_copy_to_slice(ctx):
 
 @contract(r' as (?:bytes::)?Buf>::chunk$')
 def buf_chunk(ctx):
-    return ctx.args[0] if isinstance(ctx.args[0], Ref) else NotImplemented
+    """Buf::chunk(): the next CONTIGUOUS piece of the buffer.  For the concrete `Bytes` / `BytesMut` that is everything that is
+    left; for a `Buf` of unknown shape (a generic `T: Buf`: a `Chain`, a `Take`, ...) a spec sets `chunk_partial`: any non-empty
+    prefix of what is left (empty only when nothing is left) -- the trait promises no more."""
+    if not isinstance(ctx.args[0], Ref):
+        return NotImplemented
+    ex, st = ctx.ex, ctx.st
+    if getattr(ex, 'chunk_partial', False) and re.match(r'^<T\d* as ', ctx.callee):
+        loc = BufLoc(ex, st, ctx.args[0])
+        b = loc.val
+        k = z3.BitVec(fresh_name('chunk_len'), 64)
+        ex.assume(st, z3.And(z3.ULE(k, b.len), z3.Implies(b.len != BV(0, 64), k != BV(0, 64))))
+        st.env['inputs'] = dict(st.env.get('inputs', {}), first_contiguous_piece=k)
+        return Ref(st.alloc(b.slice(BV(0, 64), k, 'slice')), ())
+    return ctx.args[0]
 
 
 @contract(r' as (?:bytes::)?Buf>::chain(?:::<.*>)?$')
@@ -565,6 +578,10 @@ def slice_index_range(ctx):
     b = loc.val
     lo, hi = range_bounds(ex, st, ctx.args[1], b.len)
     ex.require(st, z3.And(z3.ULE(lo, hi), z3.ULE(hi, b.len)), 'slice-range', 'slice index out of range')
+    if re.match(r'^<(?:str|(?:std::string::)?String) as ', ctx.callee):
+        # slicing a str panics unless both ends fall on character boundaries
+        for pos in (lo, hi):
+            ex.require(st, z3.Implies(z3.ULT(pos, b.len), (b.at(pos) & BV(0xC0, 8)) != BV(0x80, 8)), 'char-boundary', 'str slice not on a char boundary')
     cell, path = loc.loc
     if path and path[-1][0] == 'slice':
         off = path[-1][1]
@@ -696,9 +713,35 @@ def slice_iter(ctx):
 @contract(r'^<std::slice::Iter<.*> as IntoIterator>::into_iter$|^<std::ops::Range<.*> as IntoIterator>::into_iter$|^<.* as IntoIterator>::into_iter$')
 def iter_into_iter(ctx):
     a = ctx.args[0]
-    if isinstance(a, Agg) and (a.name in ('slice::Iter', 'vec::IntoIter') or last_seg(a.name) in ('Range', 'MakeFragments')):
+    if isinstance(a, Agg) and (a.name in ('slice::Iter', 'vec::IntoIter', 'iter::Enumerate', 'iter::Rev') or last_seg(a.name) in ('Range', 'MakeFragments')):
         return a
     return NotImplemented
+
+
+@contract(r'^<std::iter::Enumerate<std::slice::Iter(?:Mut)?<.*>> as Iterator>::next$')
+def enumerate_next(ctx):
+    """Enumerate<slice::Iter>::next: (count, next element) -- the inner slice iterator's own next, numbered"""
+    ex, st = ctx.ex, ctx.st
+    eref = ctx.args[0]
+    en = ex.load(st, eref.cell, eref.path)
+    if not (isinstance(en, Agg) and en.name == 'iter::Enumerate'):
+        return NotImplemented
+    inner_ref = Ref(eref.cell, eref.path + (('f', 0, 'slice::Iter'),))
+    c2 = type(ctx)(ex, st, ctx.fr, '<std::slice::Iter<T> as Iterator>::next', [inner_ref], ctx.dest_ty)
+    rs = slice_iter_next(c2)
+    if rs is NotImplemented:
+        return NotImplemented
+    outs = []
+    for s2, opt in rs:
+        d = opt.discr if isinstance(opt.discr, int) else concrete(opt.discr)
+        if d == 1:
+            en2 = ex.load(s2, eref.cell, eref.path)
+            n = en2.fields[1]
+            ex.store(s2, eref.cell, eref.path, en2.with_field(1, Int(simp(n.t + 1), 64, False)))
+            outs.append((s2, mk_option(ex, Agg('tuple', {0: n, 1: opt.variants[1][0]}))))
+        else:
+            outs.append((s2, mk_option(ex, None)))
+    return outs
 
 
 @contract(r'^<std::slice::Iter<.*> as Iterator>::next$')
